@@ -25,7 +25,7 @@ RULE = ("R-score notes, containers, bars and tracks played through play_Note/Not
         "segments and the timed on/off multiset, per-(pitch, channel) balance, on-order (sequential API), total sleep, instrument "
         "announcements, observer trace and return value are compared with the model. Non-trivial: a case with a chord and a rest, "
         "a tempo change, or >= 2 parallel parts; a refused control change."
-        ' Also: pitches up to 135 (octaves 0-10), tempo marks on empty containers, twin bars, a second pass of the same music on the same sequencer must emit the same events; chords that are not in ascending order, entries held in a user subclass of NoteContainer and tracks on a user subclass of MidiInstrument; control numbers / values that are no integers and lie just outside 0..128; play_Bar / play_Track called positionally, by keyword and with the documented defaults (120 bpm).')
+        ' Also: pitches up to 135 (octaves 0-10), tempo marks on empty containers, twin bars, a second pass of the same music on the same sequencer must emit the same events; chords that are not in ascending order, entries held in a user subclass of NoteContainer and tracks on a user subclass of MidiInstrument; control numbers / values that are no integers and lie just outside 0..128; play_Bar / play_Track called positionally, by keyword and with the documented defaults (120 bpm). Tracks of one-entry bars in every meter; the return value is a dict whose bpm entry is the final tempo.')
 ASSUMPTIONS = ["in parallel playback tempo-carrying containers are generated in the first part only (two simultaneous tempo changes "
                "have no stated winner)", "parallel parts have the same number of bars, the same meter per bar index and >= 1 entry per bar",
                "MidiInstrument cases have instrument_nr == names.index(name) (unknown name: instrument_nr 1), so 'the MIDI instrument's "
